@@ -1692,6 +1692,67 @@ func checkPolylineProject(c plCase) ev.Outcome {
 			}
 		}
 	}
+	// IsOnRight when the closest point is a vertex, robustly: an interior vertex k
+	// (x beyond the end of edge k and before the start of edge k+1; the naive
+	// definition is only unambiguous when x is on the same side of both edges) or
+	// an end vertex of the polyline (side of the first / last edge).
+	if !pole && n >= 2 {
+		count := func(k string) {
+			if o.Counts == nil {
+				o.Counts = map[string]int{}
+			}
+			o.Counts[k] = 1
+		}
+		gs := make([]pe, n)
+		for i := 1; i < n; i++ {
+			gs[i] = pointEdge(x, vs[i-1], vs[i])
+		}
+		othersFarther := func(dv float64, skip1, skip2 int) bool {
+			for i := 1; i < n; i++ {
+				if i != skip1 && i != skip2 && gs[i].ang < dv+1e-6 {
+					return false
+				}
+			}
+			return true
+		}
+		clear := func(g pe) bool {
+			return g.degenerate == 0 && g.edge < math.Pi-1e-3 && g.edge*g.sinGC > 1e-13
+		}
+		for k := 1; k <= n-2; k++ {
+			g1, g2 := gs[k], gs[k+1]
+			if !clear(g1) || !clear(g2) || !(g1.mb < -1e-6 && g2.ma < -1e-6) || !othersFarther(g1.db, k, k+1) {
+				continue
+			}
+			d1 := exact.DetSign(x.Vector, vs[k].Vector, vs[k-1].Vector)
+			d2 := exact.DetSign(x.Vector, vs[k+1].Vector, vs[k].Vector)
+			if d1 == 0 || d1 != d2 {
+				continue
+			}
+			count("is_on_right_vertex_asserted")
+			if got := pl.IsOnRight(x); got != (d1 > 0) {
+				o.Err = fmt.Sprintf("IsOnRight=%v but the closest point is vertex %d and x is exactly on the %s of both adjacent edges", got, k, map[bool]string{true: "right", false: "left"}[d1 > 0])
+				return o
+			}
+		}
+		if g := gs[1]; clear(g) && g.ma < -1e-6 && othersFarther(g.da, 1, 1) {
+			if d := exact.DetSign(x.Vector, vs[1].Vector, vs[0].Vector); d != 0 {
+				count("is_on_right_end_asserted")
+				if got := pl.IsOnRight(x); got != (d > 0) {
+					o.Err = fmt.Sprintf("IsOnRight=%v but the closest point is the first vertex and x is exactly on the %s of the first edge", got, map[bool]string{true: "right", false: "left"}[d > 0])
+					return o
+				}
+			}
+		}
+		if g := gs[n-1]; clear(g) && g.mb < -1e-6 && othersFarther(g.db, n-1, n-1) {
+			if d := exact.DetSign(x.Vector, vs[n-1].Vector, vs[n-2].Vector); d != 0 {
+				count("is_on_right_end_asserted")
+				if got := pl.IsOnRight(x); got != (d > 0) {
+					o.Err = fmt.Sprintf("IsOnRight=%v but the closest point is the last vertex and x is exactly on the %s of the last edge", got, map[bool]string{true: "right", false: "left"}[d > 0])
+					return o
+				}
+			}
+		}
+	}
 	return o
 }
 
